@@ -7,7 +7,25 @@ BASE_CMD = "cd /repo && /venv/bin/python -m pytest -ra -q -p no:cacheprovider --
 CHECKS = {}
 NA = {}
 
+BOUNDED = {
+    'C05': 'generated modules (nesting <= 3, every binding statement form) against the compiler\'s symtable',
+    'C06': 'generated class hierarchies executed under CPython (__mro__, vars), also across project modules and import forms',
+    'C07': 'list_packages and small real directory trees against importlib',
+    'C08': 'lint, and assist / location with the cursor at every position of a corpus (every construct of Python 3.12, texts that do not parse, import cycles)',
+    'C10': 'one never-read binding per kind and scope against the exemption table',
+    'C11': 'every binding position of a corpus against the text at that position',
+    'C12': 'mark transparency at every cursor inside / at the end of every read and attribute access of a corpus',
+    'C13': 'five layouts of every program of the whole-program stand-in',
+    'C14': 'every size and integer boundary against a reference codec written from the specification',
+    'C15': 'request sequences over the real codec against the in-process API',
+    'C17': 'lint / assist / location with every set() iterating in four adversarial orders',
+}
+
+
 def claim(pid, text, note, technique, design_ref):
+    if pid in BOUNDED:
+        note = note + ' A BOUNDED stand-in checks the composed behaviour against an independent oracle (' + BOUNDED[pid] + \
+            '); it is reported under `bounded` in evidence and never counted as proved (DESIGN.md 8.6).'
     CHECKS[pid] = dict(text=text, note=note, technique=technique, design_ref=design_ref)
 
 exec(open(os.path.join(HERE, 'manifest_table.py')).read())
